@@ -396,7 +396,7 @@ fn server(toks: &[&str], idle: bool, revoke_mid: bool, second_server: bool) -> S
 /// sends a request whose handler sleeps <slow_ms> and so occupies the whole blocking pool; then A goes away.  The temp
 /// file of the abandoned upload must be gone by the time A's connection has ended -- observed while B's handler is
 /// still running (busy=<files in the cache directory then>), not only after the server stopped.
-fn server_busy(toks: &[&str]) -> String {
+fn server_busy(toks: &[&str], stalled_logger: bool) -> String {
     let small: usize = toks[0].parse().unwrap();
     let tmp = temp_dir::TempDir::new().unwrap();
     let cache = cache_dir(toks[1], &tmp);
@@ -407,7 +407,10 @@ fn server_busy(toks: &[&str]) -> String {
     let slow_started = Arc::new(std::sync::atomic::AtomicBool::new(false));
     let ss2 = slow_started.clone();
     let permit = Permit::new();
-    let executor = safina::executor::Executor::new(2, 1).unwrap();
+    // mode E: ONE async thread, and instead of a slow handler a global logger whose queue is full and undrained plus a
+    // client that sends garbage: whatever the connection task reports about that client, the other connection's
+    // abandoned upload is still cleaned up
+    let executor = safina::executor::Executor::new(if stalled_logger { 1 } else { 2 }, 1).unwrap();
     let mut builder = HttpServerBuilder::new().max_conns(4).small_body_len(small).permit(permit.new_sub());
     if let Some(dir) = &cache {
         builder = builder.receive_large_bodies(dir);
@@ -435,13 +438,41 @@ fn server_busy(toks: &[&str]) -> String {
     wait(&|| count() > 0, 1500);
     let had_file = count() > 0;
     let mut b = std::net::TcpStream::connect(addr).unwrap();
-    let _ = b.write_all(b"GET /z HTTP/1.1\r\n\r\n");
-    wait(&|| slow_started.load(std::sync::atomic::Ordering::SeqCst), 1500);
+    let mut stalled = None;
+    if stalled_logger {
+        let (tx, rx) = std::sync::mpsc::sync_channel(1);
+        let _ = tx.send(servlin::log::internal::LogEvent::new(servlin::log::Level::Info, ()));
+        stalled = servlin::log::set_global_logger(tx).ok().map(|g| (g, rx));
+        let _ = b.write_all(b"bogus\r\n\r\n");
+        std::thread::sleep(std::time::Duration::from_millis(150));
+        slow_started.store(true, std::sync::atomic::Ordering::SeqCst);
+    } else {
+        let _ = b.write_all(b"GET /z HTTP/1.1\r\n\r\n");
+        wait(&|| slow_started.load(std::sync::atomic::Ordering::SeqCst), 1500);
+    }
     let _ = a.shutdown(std::net::Shutdown::Write);
-    let wire = read_all(&mut a);
-    // A's connection has ended; B's handler still sleeps
-    wait(&|| count() == 0, 300);
+    let wire = if stalled_logger {
+        // (the server may be unable to answer A at all: do not wait for it longer than a second)
+        let _ = a.set_read_timeout(Some(std::time::Duration::from_millis(1000)));
+        let mut v = Vec::new();
+        let mut buf = [0u8; 4096];
+        loop {
+            match a.read(&mut buf) {
+                Ok(0) | Err(_) => break,
+                Ok(n) => v.extend_from_slice(&buf[..n]),
+            }
+        }
+        v
+    } else {
+        read_all(&mut a)
+    };
+    // A's connection has ended; B's handler still sleeps / the logger is still stalled
+    wait(&|| count() == 0, if stalled_logger { 1000 } else { 300 });
     let busy = count();
+    if let Some((g, rx)) = stalled.take() {
+        drop(rx); // blocked senders fail now
+        drop(g);
+    }
     let still_slow = slow_started.load(std::sync::atomic::Ordering::SeqCst);
     let _ = read_all(&mut b);
     drop(permit);
@@ -482,7 +513,8 @@ fn main() {
         "R" => server(&toks[1..], false, true, false),
         "T" => server(&toks[1..], false, false, true),
         "X" => direct_fsize(&toks[1..]),
-        "B" => server_busy(&toks[1..]),
+        "B" => server_busy(&toks[1..], false),
+        "E" => server_busy(&toks[1..], true),
         _ => "?".to_string(),
     });
 }
